@@ -9,6 +9,13 @@
   * forecasts.py:681  `get_expected_rates`  → `getExpectedRates`
   * `for cat in forecast`                   → `fullPass`
   * catalog_evaluations.py number_test / spatial_test / magnitude_test → `Op.numberTest` … (their use of the forecast)
+  * catalog_evaluations.py pseudolikelihood_test (:250-262: ensure expected rates, one pass), resampled_magnitude_test
+    (:417-441) and MLL_magnitude_test (:551-581): ensure expected rates, then TWO passes → `Op.pseudolikelihoodTest`,
+    `Op.resampledMagnitudeTest`, `Op.mllMagnitudeTest` (round 4)
+  * forecasts.py:563-568 `n_cat=` given by the user for a streamed forecast (any number)  → `initStreamN` (round 4)
+  * forecasts.py:619-625 the three configured filters applied one after the other (`filter(self.filters)`,
+    `apply_mct(...)`, `filter_spatial(self.region)`) → `Cfg`, `REv`, `RCat`, `filtSeq`; `absCat` maps a raw catalog to
+    the abstract one (`keep` = conjunction of the configured predicates) (round 4)
 
   An event is abstracted to what the forecast does with it: whether it survives the configured filters
   (`filters`, `filter_spatial`; `Catalog.filter` works in place and is idempotent) and the flat index of its
@@ -66,6 +73,11 @@ def initList (cats : List Cat) (nCat : Option Nat) (applyFilters : Bool) (nBins 
 def initStream (file : List Cat) (store : Bool) (applyFilters : Bool) (nBins nMag : Nat) : St :=
   { file := file, catalogs := file, isGen := true, cache := [], store := store, applyFilters := applyFilters,
     nCat := none, idx := 0, eventCounts := [], expectedRates := none, nBins := nBins, nMag := nMag }
+
+/-- a streamed forecast constructed with `n_cat=` (forecasts.py:563: `self.n_cat = n_cat`; a generator has no `len`,
+    so the value is kept as given — right or wrong — until the end of the first pass overwrites it, :614) -/
+def initStreamN (file : List Cat) (store : Bool) (applyFilters : Bool) (nCat : Option Nat) (nBins nMag : Nat) : St :=
+  { initStream file store applyFilters nBins nMag with nCat := nCat }
 
 inductive Step where
   | yield (c : Cat)
@@ -188,6 +200,7 @@ def magMarginal (nMag : Nat) (data : List Nat) : List Nat :=
 inductive Op where
   | fullPass | getEventCounts | getExpectedRates | spatialCounts | magnitudeCounts
   | numberTest | spatialTest | magnitudeTest
+  | pseudolikelihoodTest | resampledMagnitudeTest | mllMagnitudeTest
   deriving Repr, DecidableEq
 
 /-- canonical observable of one operation -/
@@ -195,6 +208,7 @@ inductive Out where
   | cats (l : List Cat)                    -- ids and (filtered) events, in order
   | counts (l : List Nat)                  -- per-catalog event counts
   | rates (data : List Nat) (n : Nat)      -- entry j of the forecast = data[j] / n
+  | cats2 (l₁ l₂ : List Cat)               -- an evaluation that iterates twice: the catalogs of both passes
   | error
   deriving Repr, DecidableEq
 
@@ -217,10 +231,20 @@ def step (st : St) : Op → St × Out
   | .spatialCounts => withRates st (spatialMarginal st.nMag st.nBins)
   | .magnitudeCounts => withRates st (magMarginal st.nMag)
   -- catalog spatial / magnitude test: `if forecast.expected_rates is None: get_expected_rates()`, then one pass
-  | .spatialTest | .magnitudeTest =>
+  | .spatialTest | .magnitudeTest | .pseudolikelihoodTest =>
       match getExpectedRates st with
       | some (st', _) => (match fullPass st' with
           | some (st'', cats) => (st'', .cats cats)
+          | none => (st', .error))
+      | none => (st, .error)
+  -- resampled / MLL magnitude test: expected rates if absent, one pass for the union histogram
+  -- (`for j, cat in enumerate(forecast)`), a second pass for the test distribution (`for i, catalog in enumerate(forecast)`)
+  | .resampledMagnitudeTest | .mllMagnitudeTest =>
+      match getExpectedRates st with
+      | some (st', _) => (match fullPass st' with
+          | some (st'', cats₁) => (match fullPass st'' with
+              | some (st''', cats₂) => (st''', .cats2 cats₁ cats₂)
+              | none => (st'', .error))
           | none => (st', .error))
       | none => (st, .error)
 
@@ -236,7 +260,8 @@ def totals (nBins : Nat) (cats : List Cat) : List Nat :=
   (List.range nBins).map (fun j => (cats.map (fun c => (c.events.filter (fun e => e.cell = j)).length)).sum)
 
 def specOut (filtered : List Cat) (nBins nMag : Nat) : Op → Out
-  | .fullPass | .numberTest | .spatialTest | .magnitudeTest => .cats filtered
+  | .fullPass | .numberTest | .spatialTest | .magnitudeTest | .pseudolikelihoodTest => .cats filtered
+  | .resampledMagnitudeTest | .mllMagnitudeTest => .cats2 filtered filtered
   | .getEventCounts => .counts (filtered.map (·.events.length))
   | .getExpectedRates => .rates (totals nBins filtered) filtered.length
   | .spatialCounts => .rates (spatialMarginal nMag nBins (totals nBins filtered)) filtered.length
@@ -244,5 +269,52 @@ def specOut (filtered : List Cat) (nBins nMag : Nat) : Op → Out
 
 def spec (filtered : List Cat) (nBins nMag : Nat) (ops : List Op) : List Obs :=
   ops.map (fun op => (specOut filtered nBins nMag op, some filtered.length))
+
+/-! ### round 4: the configured filters, one after the other (forecasts.py:619-625)
+
+`keep` of an abstract event is not a primitive of the code: `__next__` applies up to three filters in sequence, each
+in place, each returning the catalog.  A raw event records what each of them would decide about it. -/
+
+/-- the forecast's filter configuration (`self.filters` non-empty, `self.apply_mct`, `self.filter_spatial`) -/
+structure Cfg where
+  hasFilters : Bool
+  applyMct : Bool
+  filterSpatial : Bool
+  deriving Repr, DecidableEq
+
+structure REv where
+  pf : Bool        -- satisfies every statement of `forecast.filters` (`Catalog.filter`, C04)
+  pm : Bool        -- survives `apply_mct(event.magnitude, event epoch)`: before the mainshock, after the critical time,
+                   -- or magnitude ≥ the time-dependent completeness (catalogs.py:630-640; catalogs sorted in time)
+  ps : Bool        -- lies inside the forecast's region (`filter_spatial`, C01/C04)
+  cell : Nat
+  own : Nat := cell
+  deriving Repr, DecidableEq
+
+structure RCat where
+  id : Option Nat
+  events : List REv
+  grid : Nat := 0
+  carries : Bool := false
+  deriving Repr, DecidableEq
+
+/-- the body of `if self.apply_filters:` (forecasts.py:619-625), statement by statement -/
+def filtSeq (cfg : Cfg) (c : RCat) : RCat :=
+  -- `if self.filters: catalog = catalog.filter(self.filters)`
+  let c := if cfg.hasFilters then { c with events := c.events.filter (·.pf) } else c
+  -- `if self.apply_mct: catalog = catalog.apply_mct(self.event.magnitude, datetime_to_utc_epoch(self.event.time))`
+  let c := if cfg.applyMct then { c with events := c.events.filter (·.pm) } else c
+  -- `if self.filter_spatial: catalog = catalog.filter_spatial(self.region)`
+  let c := if cfg.filterSpatial then { c with events := c.events.filter (·.ps) } else c
+  c
+
+/-- the single predicate "survives the configured filters" -/
+def keepOf (cfg : Cfg) (e : REv) : Bool :=
+  (!cfg.hasFilters || e.pf) && (!cfg.applyMct || e.pm) && (!cfg.filterSpatial || e.ps)
+
+def absEv (cfg : Cfg) (e : REv) : Ev := { keep := keepOf cfg e, cell := e.cell, own := e.own }
+
+def absCat (cfg : Cfg) (c : RCat) : Cat :=
+  { id := c.id, events := c.events.map (absEv cfg), grid := c.grid, carries := c.carries }
 
 end ForecastIter
